@@ -17,7 +17,15 @@ tie        : harness/c14_mixlinear.c includes src/mixer.c privately and interpos
              state with its state after the full mix); sampled windows, kernel calls (spy wrappers on
              all 44 kernels), volume-stage values, downmix words and whole voice ticks are replayed on
              the native Lean driver drv_c14; a twin-context run ties the player's volume / pan tails.
-search     : direct oracles on whole renders of corpus modules and of synthetic modules written from the
+pan tie    : harness/c14_pan.c includes src/player.c privately with the single call site of libxmp_virt_setpan (the end of
+             process_pan) redirected to a spy: pan sources read from the channel (pan.val, panbrello via macro.notepan, pan
+             envelope via the real get_envelope, rpv, player mode, format, surround, s->mix) -> pan handed to the mixer and
+             info_finalpan, compared with Xmp.MixLinear.processPan (command pp); the run must have exercised every source.
+search     : synthetic IT (instrument mode) / XM modules with each pan source of process_pan isolated and combined
+             (gen_c14_synth.pan_modules: channel pan, sample and instrument default pan, pan envelope, pitch-pan
+             separation, random pan swing, panbrello Yxy in all waveforms, Pxy/Xxx/S8x, surround) under the separation
+             oracle at the drawn separation, 100 and 37;
+             direct oracles on whole renders of corpus modules and of synthetic modules written from the
              seed (tools/gen_c14_synth.py: 1..4-frame loops, sub-tick one-shots, retriggers, pans 0/240/255):
              master volume 0 / all channels muted => digital silence; full mix vs sum of soloed channel
              groups; separation 0 => L == R and m vs -m => L/R exchanged (exact +-100 included).
@@ -49,7 +57,9 @@ MANIFEST = dict(
          "C14_silence_master_full that master volume 0 silences every voice of the module (module channels and their background/NNA "
          "voices) for the repaired rule of process_volume, C14_silence_master_counterexample refutes it for the pinned rule (finding F6) and "
          "C14_silence_master_status decides which one applies from the flag the translator regenerates from src/player.c on every run; C14_separation_zero/_mirror_pan/_mirror_vol/"
-         "_mirror/_mirror_tick/_zero_tick prove separation 0 => L=R and mix -> -mix swaps left/right for a whole voice tick. "
+         "_mirror/_mirror_tick/_zero_tick prove separation 0 => L=R and mix -> -mix swaps left/right for a whole voice tick; "
+         "C14_pan_separation_zero/_mirror/_range prove it for process_pan's whole pan computation (channel / default / slid pan + panbrello + "
+         "pan envelope + random pan swing -> clamp -> * mix / 100 -> vol_l/vol_r), for every value of every pan source. "
          "For the concrete kernels of src/mix_all.c (XmpModel/MixKernel.lean: nearest/linear/spline x 8/16-bit x mono/stereo sample x "
          "mono/stereo output x IT filter, volume ramp, position walk, filter write-back, the kernel tables of mixer.c, the generated cubic "
          "spline table) C14_kernel_adds proves buffer_after = buffer_before + contribution(voice, arguments) with a filter memory that does "
@@ -99,7 +109,8 @@ REQUIRED = ["Xmp.MixLinear." + n for n in (
     "C14_silence_mute", "C14_silence_master_partial", "C14_silence_master_full", "C14_silence_master_counterexample",
     "C14_silence_master_status",
     "C14_separation_zero", "C14_separation_mirror_pan", "C14_separation_mirror_vol", "C14_separation_mirror",
-    "C14_separation_mirror_tick", "C14_separation_zero_tick")] + ["Xmp.MixKernel." + n for n in (
+    "C14_separation_mirror_tick", "C14_separation_zero_tick",
+    "C14_pan_separation_zero", "C14_pan_separation_mirror", "C14_pan_range", "clampPan_range")] + ["Xmp.MixKernel." + n for n in (
     "C14_kernel_adds", "C14_kernel_length", "C14_kernel_superposition", "C14_kernel_order_independent",
     "C14_kernel_solo_independent", "C14_kernel_silence", "C14_kernel_silence_noramp", "C14_kernel_bound",
     "C14_kernel_frac_range", "C14_kernel_fits", "C14_kernel_no_wrap", "C14_kernel_no_wrap_voices", "C14_kernel_levels",
@@ -113,6 +124,7 @@ REQUIRED = ["Xmp.MixLinear." + n for n in (
 
 HARNESS = ("c14_mixlinear", ["c14_mixlinear.c"])
 KHARNESS = ("c14_kernel", ["c14_kernel.c"])
+PHARNESS = ("c14_pan", ["c14_pan.c"])
 NNA_WITNESSES = ["it_note_delay_nna.it"]      # F6 witness of DESIGN.md section 5, always in the silence set
 A500_SOLOSUM_WITNESSES = ["Mexx-BitBlaster-1.TrackerPacker2"]   # Paula state survives voice-slot reuse (found by this check)
 PAULA_WITNESSES = ["NP2.Multica"]             # Paula kernel read past the sample end at 4000 Hz (found by this check)
@@ -187,6 +199,8 @@ def model_compare(ck, what, out, stats):
             nontrivial = any(x != "0" for x in ef)
         elif kind == "vt":
             nontrivial = any(x != "0" for x in ef[6:])
+        elif kind == "pp":
+            nontrivial = ef[:1] != ["0"]
         elif kind in ("k2", "pk"):      # the buffer after the call differs from the buffer before it
             nb = int(ef.index("|")) if "|" in ef else 0
             nontrivial = ef[nb + 1:] != c.split()[-(len(ef) - nb - 1):]
@@ -200,7 +214,7 @@ def model_compare(ck, what, out, stats):
             first = next((i for i, (a, b) in enumerate(zip(ef, gf)) if a != "*" and a != b), -1)
             ck.unproved("correspondence %s%s vs the C (%s)" % ("Xmp." if kind in ("k2", "pk") else "Xmp.MixLinear.", 
                 {"sum": "tick", "vol": "volLR/level/rampDelta", "kern": "kernel", "dmx": "outSample", "vt": "voiceTick",
-                 "mst": "voiceVol", "pan": "voicePan", "k2": "MixKernel.run (bit-exact kernel)", "pk": "MixKernel.Paula.prun (bit-exact Paula kernel)"}.get(kind, kind), what),
+                 "mst": "voiceVol", "pan": "voicePan", "pp": "processPan/infoFinalPan (process_pan)", "k2": "MixKernel.run (bit-exact kernel)", "pk": "MixKernel.Paula.prun (bit-exact Paula kernel)"}.get(kind, kind), what),
                 "case: %s\nreal : %s\nmodel: %s\nfirst differing field: %d" % (c[:600], e[:400], g[:400], first))
 
 
@@ -376,6 +390,30 @@ def run(ck):
                 bump("twin_muted_voice_frames", int(d["muted"]))
         model_compare(ck, "twin", out, stats)
 
+    # ---------------- process_pan: every pan source, real calls vs Xmp.MixLinear.processPan ----------------
+    panmods = gen_c14_synth.pan_modules(os.path.join(vlib.OUT, "c14-synth"), seed)
+    ck.note("pan_source_modules", [os.path.basename(f) for f in panmods])
+    pexe = vlib.build_harness(*PHARNESS)
+    pmods = panmods + synth + modules(ck, 40 if quick else 100000, 500000 if quick else 8000000)
+    pan_cov = {"panbrello": 0, "envelope": 0, "rpv": 0, "surround": 0, "moved": 0, "nonzero_pan": 0}
+    shs = [(pexe, "pp", seed, 150 if quick else 600, b, None) for b in [pmods[i::vlib.NCPU] for i in range(vlib.NCPU)] if b]
+    for sh, (rc, out, err) in zip(shs, vlib.pmap(run_shard, shs)):
+        if rc != 0:
+            abort_violation(ck, pexe, sh, rc, err)
+            continue
+        for line in out.splitlines():
+            if line.startswith("ppstat "):
+                d = kv(line)
+                bump("pan_calls", int(d["calls"]))
+                bump("pan_modules")
+                for k in pan_cov:
+                    pan_cov[k] += int(d[k])
+        model_compare(ck, "process_pan", out, stats)
+    ck.note("pan_source_calls", pan_cov)
+    missing = [k for k, v in pan_cov.items() if v == 0]
+    if missing:
+        ck.unproved("correspondence process_pan coverage", "no real process_pan call exercised the pan source(s) %s" % missing)
+
     # ---------------- direct oracles on whole renders ----------------
     def oracle(mode, nfr, mods, statname, on_stat, env=None):
         for sh, (rc, out, err) in zip(*(lambda s: (s, vlib.pmap(run_shard, s)))(shards(exe, mode, seed, nfr, mods, env=env))):
@@ -425,6 +463,12 @@ def run(ck):
     oracle("silence", 120 if quick else 600, synth + omods, "silencestat", silence_stat)
     oracle("solosum", 90 if quick else 400, synth + (omods[:70] if quick else omods), "solosumstat", solosum_stat)
     oracle("sep", 100 if quick else 500, synth + (omods[:90] if quick else omods), "sepstat", sep_stat)
+    # every pan source of process_pan (channel / sample / instrument pan, pan envelope, pitch-pan separation, random pan
+    # swing, panbrello in all waveforms, pan slides, set pan; surround modules are reported as not applicable) at the drawn
+    # separation and at fixed ones: separation 0 => L == R, s vs -s => L/R exchanged
+    oracle("sep", 140 if quick else 500, panmods, "sepstat", sep_stat)
+    for mixv in (100, 37):
+        oracle("sep", 140 if quick else 500, panmods, "sepstat", sep_stat, {"C14_MIX": str(mixv), "C14_POS": "0"})
     # A500 mode (Paula kernels, per-voice BLEP state) on Amiga modules: regression for the Paula state that
     # survived voice-slot reuse (signature superposition:solo_sum:a500)
     amods = [f for f in allfiles if os.path.basename(f) in A500_SOLOSUM_WITNESSES] + [f for f in synth if f.endswith(".mod")]
